@@ -76,6 +76,8 @@ def gen(rng, tier="quick", prop="C06"):
                             if rng.chance(0.6)),
            "kinds": sorted(rng.sample(FREE_KINDS, rng.choice([1, 2, 4, 7]))), "margins": False, "needles": False,
            "degenerate": False, "lattice": False}
+    if prop == "C19":
+        cfg["support_budget"] = 1000
     faults = set(cfg["faults"])
     ops = []
     nb = 2 if "two-bvh" in faults else 1
@@ -160,6 +162,8 @@ def gen(rng, tier="quick", prop="C06"):
             ops.append({"op": "detect", "b": b})
         else:
             ops.append({"op": "detect_any", "b": b})
+        if prop == "C19" and ops[-1]["op"] not in ("detect", "detect_any"):
+            ops[-1] = {"op": rng.choice(["detect", "detect_any"]), "b": b}
 
     if "free" in faults:
         for b in range(nb):
@@ -287,7 +291,27 @@ def _pair_verdicts(specs, state, pairs):
     return out
 
 
+def judge_c19(plan, jr, prop="C19"):
+    """C19 on World R: self_collision.detect / detect_any are narrow-phase entry points. Every gjk call they make runs
+    under the support-evaluation clock; any exception, budget overrun or non-termination is a violation (also for
+    stale reads: the colliders are valid whatever the tree looks like)."""
+    for k, op in enumerate(plan["ops"]):
+        o = jr["obs"][k]
+        if o is None:
+            break
+        if op["op"] not in ("detect", "detect_any") or o.get("st") == "skip":
+            continue
+        st = o.get("st")
+        if st == "budget":
+            return [_v(prop, "R.clock", k, "%s: a narrow-phase call exceeded the support-evaluation budget: %s" % (op["op"], o.get("clock")))]
+        if st != "ok":
+            return [_v(prop, "R.detect.exception", k, "%s raised %s: %s (%s)" % (op["op"], o.get("exc", st), o.get("msg"), o.get("where")))]
+    return []
+
+
 def judge(plan, jr, prop="C06"):
+    if prop == "C19":
+        return judge_c19(plan, jr, prop)
     model = Model()
     obs = jr["obs"]
     for k, op in enumerate(plan["ops"]):
@@ -441,6 +465,9 @@ def stats(plan, jr):
                 inc("judged." + kind)
                 if changed:
                     judged = True
+                if kind in ("detect", "detect_any") and "clk_calls" in o:
+                    inc("judged.detect_gjk_calls_clocked", o["clk_calls"])
+                    s["max.support_evals.detect"] = max(s.get("max.support_evals.detect", 0), o["clk_max"])
                 if kind in ("detect", "detect_any"):
                     specs = e["specs"]
                     verdict = _pair_verdicts(specs, o["state"], o["pairs"])
@@ -459,6 +486,8 @@ def stats(plan, jr):
                 if kind == "qother":
                     inc("probe.qother_pairs", len(o["pairs"]))
     s["nontrivial"] = 1 if changed and judged else 0
+    if plan.get("prop") == "C19":
+        s["nontrivial"] = 1 if s.get("judged.detect_gjk_calls_clocked", 0) > 0 else 0
     if not fault:
         s["fault_free"] = 1
     return s
